@@ -23,6 +23,8 @@ VR_VERSION = b'\xff\x01'
 
 
 def payload_bytes(rec) -> bytes:
+    if rec.get('payload_raw') is not None:
+        return bytes(rec['payload_raw'])
     if 'payload' in rec and rec['payload'] is not None:
         return bytes.fromhex(rec['payload'])
     n = sum(s['n'] for s in rec['segs'])
